@@ -190,6 +190,7 @@ def _scenario(c, value):
     raise AssertionError(s)
 
 
+EMAX = SHARD.get("emax", 2)
 CMIN = SHARD.get("cmin", 0)
 CMAX = SHARD.get("cmax", 48)
 MARK = b"\x01"
@@ -229,7 +230,7 @@ def h_op(value: bytes, c1: int, eintr: int) -> int:
     """
     pre: len(value) == VL
     pre: CMIN <= c1 <= CMAX
-    pre: -1 <= eintr <= 2
+    pre: -1 <= eintr <= EMAX
     post: _ != 0
     """
     whole, _ = _once(value, (), 4096, None)
@@ -255,7 +256,7 @@ SCENS = ("get", "gets", "get_many", "gets_many", "gat", "miss", "stats", "set", 
 def shards(tier):
     S = []
     thorough = tier == "thorough"
-    maxl = 6 if thorough else 4
+    maxl = 5 if thorough else 4
     maxb = 2 if thorough else 1
     T = 1500 if thorough else 400
 
@@ -268,13 +269,16 @@ def shards(tier):
 
     for reader, extra in READERS:
         tok = extra.get("token", "")
-        top = maxl + (2 if (thorough and len(tok) > 2) else 0)
-        if reader == "segment" and not thorough:
-            top = 3     # the error-reply rule of _readsegment multiplies the branches: 4-byte streams are thorough-only
+        top = maxl
+        if reader == "segment":
+            # the error-reply rule of _readsegment multiplies the branches: 4-byte streams are thorough-only
+            top = 4 if thorough else 3
         for l in range(0, top + 1):
             for b in range(0, maxb + 1):
                 if reader == "value":
-                    for size in range(0, min(max(l + b - 1, 0), 3) + 1):
+                    for size in range(0, min(max(l + b - 1, 0), 3 if not thorough else 4) + 1):
+                        if thorough and l == 5 and b == 2 and size not in (0, 3):
+                            continue
                         add_reader(reader, l, b, dict(size=size))
                 else:
                     if len(tok) > 2 and l + b < 2:
@@ -286,15 +290,18 @@ def shards(tier):
         if thorough:
             vls = (0, 1, 2, 3, 5) if fetch else (2,)
         else:
-            vls = {"get": (0, 2, 3), "raw_get": (0, 2)}.get(scen, (2,))
+            vls = {"get": (0, 2, 3, 5), "raw_get": (0, 2)}.get(scen, (2,))
         for vl in vls:
             for recv in (4096, 4):
-                if recv == 4 and not thorough and not (scen in ("get", "raw_get", "stats", "set_many", "version") and vl in (2, 3)):
+                if recv == 4 and not thorough and not (scen in ("get", "raw_get", "stats", "set_many", "version") and vl in (2, 3, 5)):
                     continue
                 ranges = ((0, 12), (13, 24), (25, 36), (37, 48)) if (multi or (thorough and fetch)) else ((0, 48),)
                 for lo, hi in ranges:
                     S.append(dict(fn="h_op", timeout=T, weight=3 if (multi or scen == "raw_get") else 1,
                                   shard=dict(scen=scen, vl=vl, recv=recv, cmin=lo, cmax=hi)))
+        if scen == "get":
+            # EINTR while the body of a value larger than the (scaled) receive size is being read
+            S.append(dict(fn="h_op", timeout=T, shard=dict(scen="get", vl=5, recv=4, cmin=0, cmax=0, emax=9)))
     return S
 
 
@@ -304,7 +311,7 @@ BOUNDS = {
              "tokens {CRLF, LF, END CRLF, LF CRLF END CRLF}; operations: 18 scenarios (fetch/store/delete/incr/touch/stats/"
              "version/raw_command) with a symbolic stored value of 0, 2 or 3 bytes, one symbolic cut position in 0..48 "
              "(plus cuts every 4 bytes in the receive-size-4 shards), EINTR at a symbolic recv",
-    "thorough": "streams up to 6 (8 for long end tokens), initial buffer up to 2, values 0,1,2,3,5 bytes, receive size 4 "
+    "thorough": "streams up to 5 (4 for _readsegment), initial buffer up to 2, values 0,1,2,3,5 bytes, receive size 4 "
                 "for every scenario",
 }
 OUTSIDE = ("streams longer than 6-9 bytes at unit level; more than two cuts at operation level (the receive size 4 runs cut "
